@@ -43,6 +43,8 @@ structure FInst (F : Type) where
   note : String := ""
   /-- what the implementation printed for its configuration the last time it was asked (kept across a reset) -/
   lastCfg : Option String := none
+  /-- long-run mode: keep only the most recent `cap` inputs / outputs -/
+  long : Option Nat := none
 
 /-- pipe shapes: `L` a filter leaf (index into the leaf list), `S` the source leaf, `K` the sink leaf -/
 inductive PShape where
